@@ -340,12 +340,55 @@ def bignum_toplevel_cases():
                 if len(e) > 1: out.append(case("dec", ty, e[:-1], fam="prefix", key=(ty, e)))
     return out
 
+
+def override_cases(which):
+    """the protected header is set TWICE before the creating call (a later setter overrides an earlier one, an empty
+    header included): what is handed over is the structure of the header in force, for every ordered pair of header classes"""
+    out = []
+    aad, pl, k = b"external aad", b"the payload", b"kk"
+    hs = [D_EMPTY_HEADER, d_header(alg=d_reg(1, -7)), d_header(kid=b"kid"), d_header(alg=d_reg(1, 5), kid=b"k2", rest=((I(100), I(1)),)), d_header(rest=((T("x"), I(1)),))]
+    def pbytes(h): return b"" if pyspec.header_empty(h) else enc(pyspec.header_map(h))
+    for h1 in hs:
+        for h2 in hs:
+            if h1 == h2: continue
+            pb = pbytes(h2)
+            pre = [A(T("protected"), h1), A(T("protected"), h2)]
+            if "sign" in which:
+                want = k + pyspec.sig_structure("CoseSign1", pb, None, aad, pl)
+                for opn in ("create_signature", "try_create_signature"):
+                    out.append(case("build", "CoseSign1", enc(('a', pre + [A(T("payload"), B(pl)), A(T(opn), B(aad), A(I(0), B(k)))])), fam="protected-override:" + opn,
+                                    check=lambda c, o, w=want: None if ("h" + w.hex()) in o else "signature created over other bytes than the Sig_structure of the header in force"))
+                sg = d_signature(d_protected(None, h2), D_EMPTY_HEADER, b"")
+                want = k + pyspec.sig_structure("CoseSignature", pb, pb, aad, pl)
+                out.append(case("build", "CoseSign", enc(('a', pre + [A(T("payload"), B(pl)), A(T("add_created_signature"), sg, B(aad), A(I(0), B(k)))])), fam="protected-override:add_created_signature",
+                                check=lambda c, o, w=want: None if ("h" + w.hex()) in o else "signature created over other bytes than the Sig_structure of the header in force"))
+            if "mac" in which:
+                for bt in ("CoseMac0", "CoseMac"):
+                    want = k + pyspec.mac_structure(bt, pb, aad, pl)
+                    for opn in ("create_tag", "try_create_tag"):
+                        out.append(case("build", bt, enc(('a', pre + [A(T("payload"), B(pl)), A(T(opn), B(aad), A(I(0), B(k)))])), fam="protected-override:" + opn,
+                                        check=lambda c, o, w=want: None if ("h" + w.hex()) in o else "tag created over other bytes than the MAC_structure of the header in force"))
+                    # re-set between two creations: the second creation sees the new header
+                    ops = [A(T("protected"), h1), A(T("payload"), B(pl)), A(T("create_tag"), B(aad), A(I(0), B(k))), A(T("protected"), h2), A(T("create_tag"), B(aad), A(I(0), B(k)))]
+                    out.append(case("build", bt, enc(('a', ops)), fam="protected-override:create-reset-create",
+                                    check=lambda c, o, w=want: None if ("h" + w.hex()) in o else "second tag created over other bytes than the MAC_structure of the header in force"))
+            if "enc" in which:
+                for bt in ("CoseEncrypt0", "CoseEncrypt"):
+                    want = k + bytes([len(pl) % 256]) + pl + pyspec.enc_structure(bt, pb, aad)
+                    for opn in ("create_ciphertext", "try_create_ciphertext"):
+                        out.append(case("build", bt, enc(('a', pre + [A(T(opn), B(pl), B(aad), A(I(0), B(k)))])), fam="protected-override:" + opn,
+                                        check=lambda c, o, w=want: None if ("h" + w.hex()) in o else "ciphertext created with other additional data than the Enc_structure of the header in force"))
+                want = k + bytes([len(pl) % 256]) + pl + pyspec.enc_structure("EncRecipient", pb, aad)
+                out.append(case("build", "CoseRecipient", enc(('a', pre + [A(T("create_ciphertext"), T("EncRecipient"), B(pl), B(aad), A(I(0), B(k)))])), fam="protected-override:recipient.create_ciphertext",
+                                check=lambda c, o, w=want: None if ("h" + w.hex()) in o else "ciphertext created with other additional data than the Enc_structure of the header in force"))
+    return out
+
 # ================================================================= C16
 def label_palette():
     ints = sorted(set(x for x in LATTICE if -2**63 <= x < 2**63) | {2, 10, 22, 25, 100, 1000, -2, -10, -23, -26, -100, -1000,
                   2**31, -2**31, 2**62, -2**62})
     texts = ["", "a", "b", "aa", "ab", "b" * 2, "é", "z", "a" * 23, "a" * 24, "b" * 23, "a" * 255, "a" * 256, "b" * 255,
-             "中", "a" * 22 + "é", "\x00", "\x7f", "A"]
+             "中", "a" * 22 + "é", "\x00", "\x7f", "A", "B", "AA", "Aa", "aA", "É", "abc", "ABC", "a ", " a"]
     return [I(i) for i in ints] + [T(t) for t in texts]
 
 def lab_enc(v): return enc(v)
@@ -365,7 +408,7 @@ def cases_C16(rng, tier):
                         expect="ok %s %s" % (cmp3((len(ea), ea), (len(eb), eb)), eq)))
     # registry variants: Assigned / PrivateUse / Text
     def regvals(regs, privs):
-        return [A(I(1), I(x)) for x in regs] + [A(I(0), I(x)) for x in privs] + [A(I(2), T(t)) for t in ["", "a", "b", "aa", "é"]]
+        return [A(I(1), I(x)) for x in regs] + [A(I(0), I(x)) for x in privs] + [A(I(2), T(t)) for t in ["", "a", "b", "aa", "é", "A", "B", "aA", "Aa", "AA", "É", "text/plain", "text/PLAIN", "Text/Plain", "abc", "ABC", "a ", " a"]]
     for kind, vals in (("regp:Algorithm", regvals(ALG_REG + [-6, -5, 24, 25, 26, -25, -26, -27], ALG_PRIV)),
                        ("regp:CwtClaimName", regvals(CLAIM_REG + [1, 7], CLAIM_PRIV)),
                        ("reg:KeyType", regvals(KTY_REG + [0], [])),
@@ -454,19 +497,44 @@ def cases_C17(rng, tier):
                  ("kty-after-alg", "CoseKey", lambda x: b"\xa2\x03\x26\x01" + x), ("kty-after-params", "CoseKey", lambda x: b"\xa3\x20\x01\x21\x40\x01" + x),
                  ("key-alg-by-kty-okp", "CoseKey", lambda x: b"\xa3\x01\x01\x20\x06\x03" + x), ("key-alg-by-kty-ec2", "CoseKey", lambda x: b"\xa3\x01\x02\x20\x01\x03" + x),
                  ("claim-name-after-iss", "ClaimsSet", lambda x: b"\xa2\x01\x61\x69" + x + b"\x00"), ("claim-name-before-iss", "ClaimsSet", lambda x: b"\xa2" + x + b"\x00\x01\x61\x69"),
-                 ("claim-name-after-private", "ClaimsSet", lambda x: b"\xa2\x3a\x00\x01\x00\x00\x00" + x + b"\x00"))
+                 ("claim-name-after-private", "ClaimsSet", lambda x: b"\xa2\x3a\x00\x01\x00\x00\x00" + x + b"\x00"),
+                 # label positions inside LIST elements at index 0 / 1 / 2 (one bad element is an error of the whole list)
+                 ("countersig-list0-alg", "Header", lambda x: b"\xa1\x07\x82\x83\x40\xa1\x01" + x + b"\x40\x83\x40\xa0\x40"),
+                 ("countersig-list1-alg", "Header", lambda x: b"\xa1\x07\x82\x83\x40\xa0\x40\x83\x40\xa1\x01" + x + b"\x40"),
+                 ("countersig-list2-prot-alg", "Header", lambda x: b"\xa1\x07\x83\x83\x40\xa0\x40\x83\x40\xa0\x40\x83" + enc(B(b"\xa1\x01" + x)) + b"\xa0\x40"),
+                 ("countersig-list1-crit", "Header", lambda x: b"\xa1\x07\x82\x83\x40\xa0\x40\x83\x40\xa1\x02\x81" + x + b"\x40"),
+                 ("countersig-list1-ct", "CoseSign1", lambda x: b"\x84\x40\xa1\x07\x82\x83\x40\xa0\x40\x83\x40\xa1\x03" + x + b"\x40\xf6\x40"),
+                 ("countersig-single-prot-alg", "Header", lambda x: b"\xa1\x07\x83" + enc(B(b"\xa1\x01" + x)) + b"\xa0\x40"),
+                 ("signer1-alg", "CoseSign", lambda x: b"\x84\x40\xa0\xf6\x82\x83\x40\xa0\x40\x83\x40\xa1\x01" + x + b"\x40"),
+                 ("recipient1-alg", "CoseEncrypt", lambda x: b"\x84\x40\xa0\xf6\x82\x83\x40\xa0\xf6\x83\x40\xa1\x01" + x + b"\xf6"),
+                 ("recipient1-prot-alg", "CoseMac", lambda x: b"\x85\x40\xa0\xf6\x40\x82\x83\x40\xa0\xf6\x83" + enc(B(b"\xa1\x01" + x)) + b"\xa0\xf6"),
+                 ("nested-recipient1-alg", "CoseRecipient", lambda x: b"\x84\x40\xa0\xf6\x82\x83\x40\xa0\xf6\x83\x40\xa1\x01" + x + b"\xf6"),
+                 ("keyset-key2-kty", "CoseKeySet", lambda x: b"\x83\xa1\x01\x04\xa1\x01\x04\xa1\x01" + x),
+                 ("key-op1", "CoseKey", lambda x: b"\xa2\x01\x04\x04\x82\x01" + x), ("crit1-of-3", "Header", lambda x: b"\xa1\x02\x83\x01" + x + b"\x04"))
     pwin = list(range(-300, 300)) + [-65535, -65536, -65537, 10000, 11060, 11542, 11543, 65535]
     if tier != "quick": pwin = sorted(set(pwin) | set(range(-1000, 12000)))
+    import tables as _tb
+    alias = set()
+    for reg in _tb.REG.values():
+        for v in reg:
+            for k in (8, 16, 31, 32, 33, 63, 64):
+                for a in (v + 2**k, v - 2**k, -v + 2**k if v else None, (v % 2**k) if v < 0 else None):
+                    if a is not None and -2**64 <= a < 2**64 and a != v: alias.add(a)
+    alias = sorted(alias)
+    if tier == "quick": alias = rng.sample(alias, 400) + [2**32 - 7, 2**32 - 3, 2**32 - 65535, 2**32 - 260, 2**16 - 7, 2**8 - 7, 2**32 + 1, 2**32 + 4, 2**16 + 1, 256 + 1]
     for name, ty, wrap in positions:
         for v in pwin:
             out.append(case("dec", ty, wrap(enc(I(v))), fam="position:" + name))
+        # integers that become a registered value when truncated to 8 / 16 / 31 / 32 / 33 / 63 / 64 bits or sign-flipped
+        for v in (alias if name in ("alg", "kty", "claim-name", "crit", "content-format", "key-op", "key-alg", "kdf-alg", "protected-alg") else alias[::7]):
+            out.append(case("dec", ty, wrap(enc(I(v))), fam="position-alias:" + name, strict_err=True))
         import tables as _tbl
         names = ["", "a", "alg", "OKP", "EC", "EC2", "RSA", "oct", "Symmetric", "ES256", "HS256", "A128GCM", "direct", "kid", "crit", "sign", "verify",
                  "encrypt", "iss", "sub", "exp", "cnf", "Reserved", "0", "1", "-7", "text/plain", "application/cbor"]
         for reg in _tbl.REG.values():
             names += list(reg.values())[:4]
         for t in sorted(set(names + [x.lower() for x in names] + [x.upper() for x in names])):
-            if name in ("content-format", "protected-ct", "countersig-ct", "ct-after-alg"):
+            if name in ("content-format", "protected-ct", "countersig-ct", "ct-after-alg", "countersig-list1-ct"):
                 out.append(case("dec", ty, wrap(enc(T(t))), fam="position-text:" + name))     # content types have their own text rules
             elif ty == "CoseKdfContext":
                 out.append(case("dec", ty, wrap(enc(T(t))), fam="position-text:" + name, expect_re=r"ok enc=[0-9a-f]*" + enc(T(t)).hex() + r"[0-9a-f]*"))
@@ -635,6 +703,21 @@ def cases_C15(rng, tier):
                     else:
                         out.append(case("dec", "CoseKeySet", b, fam="keyset-member-range-inr", strict_err=True))
     out += [c for c in bignum_toplevel_cases() if c["fam"] == "base"]
+    # integers that become a REGISTERED identifier when truncated to 8 / 16 / 31 / 32 / 33 bits (never wrapped): at the
+    # registry-typed positions the value is classified as what it is
+    import tables as _tb
+    for regname, pos in (("Algorithm", [("Header", lambda x: head(5, 1) + b"\x01" + x), ("CoseKey", lambda x: head(5, 2) + b"\x01\x01\x03" + x), ("RegP:Algorithm", lambda x: x),
+                                        ("CoseKdfContext", lambda x: b"\x84" + x + b"\x83\xf6\xf6\xf6\x83\xf6\xf6\xf6\x82\x00\x40")]),
+                         ("CwtClaimName", [("ClaimsSet", lambda x: head(5, 1) + x + b"\x00")]), ("KeyType", [("CoseKey", lambda x: head(5, 1) + b"\x01" + x)]),
+                         ("CoapContentFormat", [("Header", lambda x: head(5, 1) + b"\x03" + x)]), ("HeaderParameter", [("Header", lambda x: head(5, 1) + b"\x02\x81" + x)]),
+                         ("KeyOperation", [("CoseKey", lambda x: head(5, 2) + b"\x01\x01\x04\x81" + x)])):
+        vals = sorted(_tb.REG[regname])
+        if tier == "quick" and len(vals) > 25: vals = rng.sample(vals, 25)
+        for v in vals:
+            for k in (8, 16, 31, 32, 33):
+                for a in (v + 2**k, v - 2**k):
+                    for ty, wrap in pos:
+                        out.append(case("dec", ty, wrap(enc(I(a))), fam="wrap-alias:" + regname, strict_err=True))
     return out
 
 # ================================================================= C14
@@ -1071,6 +1154,7 @@ def cases_C03(rng, tier):
         out.append(case("helperdesc", "sign.tbs_data", enc(A(small[0], D_EMPTY_HEADER, B(b"p" * L), sigs)), b"aad", b"\x00", fam="length-boundaries:sign.tbs_data", expect="ok " + ws.hex()))
     out += field_population_cases(("sign",))
     out += edited_twins(out)
+    out += override_cases(("sign",))
     return out
 
 def post_injective(cases, impl):
@@ -1162,6 +1246,7 @@ def cases_C04(rng, tier):
             out.append(case("macdata", ctx, enc(d), b"a", b"p", fam="length-boundaries:protected", expect="ok " + pyspec.mac_structure(ctx, wire, b"a", b"p").hex()))
     out += field_population_cases(("mac",))
     out += edited_twins(out)
+    out += override_cases(("mac",))
     return out
 
 def cases_C05(rng, tier):
@@ -1270,6 +1355,7 @@ def cases_C05(rng, tier):
             out.append(case("encdata", ctx, enc(d), b"a", fam="length-boundaries:protected", expect="ok " + pyspec.enc_structure(ctx, wire, b"a").hex()))
     out += field_population_cases(("enc",))
     out += edited_twins(out)
+    out += override_cases(("enc",))
     return out
 
 
@@ -2166,6 +2252,7 @@ def cases_C06(rng, tier):
             out.append(case("buildrt", bt, enc(('a', ops)), tg, *args, fam=bt,
                             **({"expect": "fail"} if fail else {"check": (lambda cc, o, w=want, ctt=ct: None if o.endswith(" %s %s" % (ctt.hex(), w.hex())) else "decrypt did not receive (ciphertext, additional data given at creation)")})))
     out += field_population_cases(("sign", "mac", "enc"))
+    out += override_cases(("sign", "mac", "enc"))
     return out
 
 # ================================================================= C02
